@@ -1174,6 +1174,24 @@ class Parser(object):
             raise ProductionError(ECMASyntaxError(
                 'Function statement requires a name at %s:%s' % (line, col)))
 
+        # Likewise if the expression merely starts with one, e.g.
+        # `function(){}()` or `function f(){}.x`: find the leftmost
+        # operand of the expression.
+        leftmost = {
+            'FunctionCall': 'identifier', 'DotAccessor': 'node',
+            'BracketAccessor': 'node', 'BinOp': 'left', 'Comma': 'left',
+            'Assign': 'left', 'Conditional': 'predicate',
+            'PostfixExpr': 'value',
+        }
+        node = p[1]
+        while type(node).__name__ in leftmost:
+            node = getattr(node, leftmost[type(node).__name__])
+        if isinstance(node, self.asttypes.FuncExpr):
+            _, line, col = node.getpos('(', 0)
+            raise ProductionError(ECMASyntaxError(
+                'Expression statement cannot start with a function '
+                'expression at %s:%s' % (line, col)))
+
         # The most bare 'block' rule is defined as part of 'statement'
         # and there are no other bare rules that would result in the
         # production of such like for 'function_expr'.
